@@ -108,3 +108,87 @@ def filter_kwargs(reg_entry, kw):
     if reg_entry['var_kw']:
         return dict(kw)
     return {k: v for k, v in kw.items() if k in reg_entry['params']}
+
+
+# --------------------------------------------------------------------------------------------------
+# parameter variants: non-default values that switch on code paths the default call never reaches.
+# Derived from the signature (names and defaults obtained by introspection); the table only says which
+# alternative values make sense for a parameter of a given NAME.
+ALT_VALUES = {
+    'smooth_half_window': [0, 1, 3], 'interp_half_window': [0, 2], 'lam_smooth': [0, 10.0], 'half_window': [1, 2, 6], 'max_half_window': [3, 5],
+    'diff_order': [1, 3], 'poly_order': [0, 1, 3], 'segments': [1, 3], 'filter_order': [2, 4, 6, 8], 'lam': [1e1, 1e3, 1e7],
+    'num_knots': [4, 9, 25], 'spline_degree': [1, 2, 4], 'max_iter': [0, 1, 5], 'sections': [4, 9], 'p': [0.1, 0.5], 'eta': [0.0, 1.0],
+    'quantile': [0.2, 0.5], 'alpha_factor': [0.5], 'num_std': [1.0, 4.0], 'min_length': [1, 4], 'window_size': [3, 7], 'lam_1': [1e-2, 1.0],
+    'lam_0': [0.5], 'lam_2': [0.5], 'asymmetry': [1.0, 3.0], 'filter_type': [1, 2], 'cost_function': [1, 2], 'freq_cutoff': [0.02],
+    'threshold': [0.5], 'fraction': [0.3, 0.8], 'total_points': [7], 'scale': [2.0], 'delta': [0.0, 3.0], 'eps_0': [1e-3], 'eps_1': [1e-3],
+    'tol': [1e-1, 0.0], 'constrained_fraction': [0.05], 'constrained_weight': [1e3], 'estimation_poly_order': [1, 3], 'sampling': [2],
+    'k': [0.5], 'beta': [0.3], 'max_iter_2': [2], 'tol_2': [1e-1], 'sigma': [1.0], 'scales': [[2, 3, 4]], 'min_fwhm': [2],
+    'cost_function_str': [], 'weights_as_mask': [True, False],
+}
+STR_VALUES = {
+    'cost_function': {'penalized_poly': ['asymmetric_truncated_quadratic', 'symmetric_truncated_quadratic', 'asymmetric_huber', 'symmetric_huber',
+                                         'asymmetric_indec', 'symmetric_indec'], 'goldindec': ['asymmetric_indec', 'asymmetric_truncated_quadratic']},
+    'side': {'optimize_extended_range': ['left', 'right', 'both']},
+    'interp_method': {'interp_pts': ['linear', 'cubic']},
+}
+
+
+def variants(name, e, two_d, rng, count=3, base=None):
+    """`count` keyword-argument dictionaries for `name`, each the base call with ONE or TWO parameters moved to a non-default
+    value (bools flipped; None / 0 defaults switched on; named numeric parameters moved within their domain)"""
+    base = dict(filter_kwargs(e, call_kwargs(name, two_d)) if base is None else base)
+    cands = []
+    for pn, default in e['params'].items():
+        if pn in ('weights', 'alpha', 'x_data', 'z_data', 'method', 'method_kwargs', 'pad_kwargs', 'window_kwargs', 'baseline_points', 'regions',
+                  'kwargs', 'return_coef'):
+            if pn == 'return_coef':
+                cands.append((pn, True))
+            continue
+        if isinstance(default, bool):
+            cands.append((pn, not default))
+            continue
+        vals = list(ALT_VALUES.get(pn, []))
+        if pn in STR_VALUES and name in STR_VALUES[pn]:
+            vals = list(STR_VALUES[pn][name])
+        if pn == 'lam' and default is None:
+            vals = [1e2, 1e5]
+        for v in vals:
+            if v != base.get(pn, default):
+                cands.append((pn, v))
+    out = []
+    if not cands:
+        return out
+    for _ in range(count):
+        kw = dict(base)
+        picks = rng.choice(len(cands), size=min(len(cands), 1 + int(rng.random() < 0.35)), replace=False)
+        for i in picks:
+            pn, v = cands[int(i)]
+            if two_d and isinstance(v, (int, float)) and not isinstance(v, bool) and pn in ('half_window', 'diff_order', 'poly_order', 'lam', 'num_knots',
+                                                                                               'spline_degree', 'lam_1') and rng.random() < 0.5:
+                v = (v, v)
+            kw[pn] = v
+        out.append(kw)
+    return out
+
+
+def single_variants(name, e, two_d, base=None):
+    """every base call with exactly ONE parameter moved to one of its alternative values (deterministic enumeration)"""
+    base = dict(filter_kwargs(e, call_kwargs(name, two_d)) if base is None else base)
+    out = []
+    for pn, default in e['params'].items():
+        if pn in ('weights', 'alpha', 'x_data', 'z_data', 'method', 'method_kwargs', 'pad_kwargs', 'window_kwargs', 'baseline_points', 'regions', 'kwargs'):
+            continue
+        if pn == 'return_coef':
+            vals = [True]
+        elif isinstance(default, bool):
+            vals = [not default]
+        else:
+            vals = list(ALT_VALUES.get(pn, []))
+            if pn in STR_VALUES and name in STR_VALUES[pn]:
+                vals = list(STR_VALUES[pn][name])
+            if pn == 'lam' and default is None:
+                vals = [1e2, 1e5]
+        for v in vals:
+            if v != base.get(pn, default):
+                out.append(dict(base, **{pn: v}))
+    return out
